@@ -258,7 +258,7 @@ GenSegOnly(seed) ==
       out == [i \in 1..k |-> IF ipaOut THEN Ipa(Lits[Pick(seed, C(6, i), Len(Lits))]) ELSE PlainFeatMx(seed, C(7, i))]
   IN [class |-> IF ipaOut THEN "seg-ipa" ELSE "seg-mx", rule |-> Rule(inp, out, GenEnvs(seed, 8, TRUE), GenExc(seed, 9))]
 GenProsOnly(seed) ==
-  LET c == Pick(seed, 3, 8)
+  LET c == Pick(seed, 3, 10)
       pm == IF Chance(seed, 4, 1, 2) THEN GenStressMod(seed, 5) ELSE GenToneMod(seed, 5)
       envs == GenEnvs(seed, 8, TRUE)   exc == GenExc(seed, 9)
   IN [class |-> "pros", rule |->
@@ -267,6 +267,9 @@ GenProsOnly(seed) ==
         [] c = 5  -> Rule(<<SB>>, <<Empty>>, GenEnvs(seed, 8, FALSE), exc)
         [] c = 6  -> Rule(<<Empty>>, <<SB>>, <<NonEmptyEnv(seed, 8)>>, <<>>)
         [] c = 7  -> Rule(<<SB, GenSeg(seed, 6)>>, <<Met>>, envs, exc)
+        \* the stress / secondary stress value is an alpha bound by a feature (or the length) of the input: `V:[Anas] > [Asec.stress]`
+        [] c = 9  -> Rule(<<WithMods(Grp(9), <<<<"f", FeatPool[Pick(seed, 10, Len(FeatPool))], "A">>>>)>>, <<Mx(<<<<"s", SupraNames[2 + Pick(seed, 11, 2)], IF Chance(seed, 12, 1, 3) THEN "-A" ELSE "A">>>>)>>, envs, exc)
+        [] c = 10 -> Rule(<<WithMods(IF Chance(seed, 13, 1, 2) THEN Grp(9) ELSE Mx(<<>>), <<<<"s", SupraNames[Pick(seed, 10, 2)], "A">>>>)>>, <<Mx(<<<<"s", SupraNames[2 + Pick(seed, 11, 2)], "A">>>>)>>, envs, exc)
         [] OTHER  -> Rule(<<GenSeg(seed, 6), SB>>, <<Met>>, envs, exc)]
 
 (* C07: rules whose output merely restates the input through captures *)
@@ -422,4 +425,17 @@ GenF1(seed) ==
        [] c <= 6 -> Rule(IF k = 1 THEN inp \o <<F0El(seed, 15)>> ELSE inp, <<Met>>, ctx, exc)
        [] OTHER  -> LET e == Env(F1InsSide(seed, 16, "l"), F1InsSide(seed, 17, "r")) IN
                     Rule(<<Empty>>, [i \in 1..Pick(seed, 18, 2) |-> F0Lit(seed, C(19, i))], <<IF e = EmptyEnv THEN Env(<<F0El(seed, 20)>>, <<>>) ELSE e>>, IF Chance(seed, 21, 1, 5) THEN <<F0Env(seed, 22)>> ELSE <<>>)
+(* Rules in which the binding tables are worked hard: an alpha bound by the input, an environment SET whose alternatives bind further alphas  *)
+(* (so that a failing alternative has something to undo), and an output that uses the input's alpha. For C01: whatever the tables' internal   *)
+(* order, the same call must give the same result every time.                                                                                  *)
+GenAlphaEnv(seed) ==
+  LET f(i) == FeatPool[Pick(seed, 30 + i, Len(FeatPool))]
+      base == IF Chance(seed, 3, 1, 2) THEN Grp(1) ELSE IF Chance(seed, 4, 1, 2) THEN Grp(9) ELSE Mx(<<>>)
+      inp == WithMods(base, <<<<"f", f(1), "A">>>>)
+      out == Mx(<<<<"f", f(2), IF Chance(seed, 5, 1, 3) THEN "-A" ELSE "A">>>>)
+      binder(i) == Mx(<<<<"f", f(2 + i), IF Chance(seed, 40 + i, 1, 2) THEN "B" ELSE "A">>>>)
+      alt(i) == LET side == <<binder(i)>> \o (IF Chance(seed, 50 + i, 2, 3) THEN <<PlainSeg(seed, 60 + i)>> ELSE <<>>) IN
+                IF Chance(seed, 70 + i, 1, 2) THEN Env(<<>>, side) ELSE Env(MirrorSeq(side), <<>>)
+      n == 2 + Pick(seed, 6, 2) - 1
+  IN Rule(<<inp>>, <<out>>, [i \in 1..n |-> alt(i)], IF Chance(seed, 7, 1, 4) THEN <<alt(9)>> ELSE <<>>)
 =============================================================================
